@@ -99,7 +99,8 @@ Definition certs_ok (f : func) (C : certs) : bool := nodup_keys C && forallb (ce
 Definition loc := (option Z * option Z * option Z)%type.
 Definition loc_of (C : certs) (p : operand) (n : option Z) : option loc :=
   match cert_op C p with Some (r, k) => Some (r, k, n) | None => None end.
-(* provably disjoint: same region and disjoint intervals, or two different allocations *)
+(* provably disjoint: same region and disjoint intervals, or two different regions (two allocations, or an allocation and
+   the region None of concrete addresses / pointers received as parameters: the allocator's obligation, C04) *)
 Definition disjoint (a b : loc) : bool :=
   let '(ra, ka, na) := a in let '(rb, kb, nb) := b in
   match ra, rb with
@@ -115,7 +116,7 @@ Definition disjoint (a b : loc) : bool :=
       | Some ka, Some na, Some kb, Some nb => (ka + na <=? kb) || (kb + nb <=? ka)
       | _, _, _, _ => false
       end
-  | _, _ => false
+  | _, _ => true
   end.
 Definition odisjoint (a b : option loc) : bool :=
   match a, b with Some x, Some y => disjoint x y | _, _ => false end.
@@ -237,19 +238,21 @@ Fixpoint ro_args_ok (C : certs) (F : list fact) (all_new : list operand) (all_an
        | Some sz =>
            existsb (fun fc => match fc with FCopy op dF sF nF =>
                       String.eqb op "mcopy" && operand_eqb sz nF && same_val C x dF && same_new C x' sF end) F &&
-           (* aliasing: the new operand's allocation is not reachable through a writable operand *)
-           match region_of C x' with
-           | Some (Some rg) =>
-               forallb (fun p => match snd p with
-                                 | Some _ => true
-                                 | None => match fst p with
-                                           | OLab _ => true
-                                           | o => match region_of C o with Some r => negb (oeqb r (Some rg)) | None => false end
-                                           end
-                                 end) (combine all_new all_ann)
-           | Some None => true
-           | None => false
-           end
+           (* aliasing: the new operand's allocation is not reachable through a writable operand (annotation None): such an
+              operand is a label, or certified to lie in another region; when the region of the new operand is not known
+              (a phi of two allocations), every writable operand must be a label or a plain word *)
+           forallb (fun p => match snd p with
+                             | Some _ => true
+                             | None => match fst p with
+                                       | OLab _ => true
+                                       | o => match region_of C x', region_of C o with
+                                              | Some (Some rg), Some r => negb (oeqb r (Some rg))
+                                              | Some None, _ => true
+                                              | None, Some None => true
+                                              | _, _ => false
+                                              end
+                                       end
+                             end) (combine all_new all_ann)
        end) && ro_args_ok C F all_new all_ann r r' rn
   | _, _, _ => false
   end.
